@@ -141,7 +141,8 @@ def _compile(chunk, scalar, opts, skipped):
         for rec in chunk:
             try:
                 mod = s5.Module([rec[2]["form"]], scalar, opts)
-                rec[2]["twin_module"] = s5.Module([rec[2]["form"]], scalar, rec[1]["twin_options"])
+                if rec[1].get("twin_options") is not None:
+                    rec[2]["twin_module"] = s5.Module([rec[2]["form"]], scalar, rec[1].get("twin_options"))
                 out.append((rec, (mod, 0)))
             except Exception as e:  # noqa: BLE001
                 skipped.append({"item": rec[0], "why": f"ffcx failed: {type(e).__name__}: {str(e)[:300]}",
